@@ -13,6 +13,14 @@ def gen(rng, tier):
         for sl in (["null"] + lens if tier == "thorough" else ["null", 0, 1, 32, 64, 65, rng.choice(lens)]):
             ikm = contents(rng, il); salt = "null" if sl == "null" else hexs(contents(rng, sl))
             cases.append(Case("hkdfx %s %s" % (hexs(ikm), salt), "extract ikm=%d salt=%s" % (il, sl), True, spec="spec.hkdfx %s %s" % (hexs(ikm), salt)))
+    # coinciding operands: ikm == salt (same bytes), prk == info
+    for n in [1, 32, 64, 65]:
+        X = contents(rng, n, "rand")
+        cases.append(Case("hkdfx %s %s" % (hexs(X), hexs(X)), "extract ikm==salt n=%d" % n, True, spec="spec.hkdfx %s %s" % (hexs(X), hexs(X))))
+        cases.append(Case("hkdfkiv %s %s %s" % (hexs(X), hexs(X), hexs(X)), "keyiv all-equal n=%d" % n, True, spec="spec.hkdfkiv %s %s %s" % (hexs(X), hexs(X), hexs(X))))
+    X = contents(rng, 32, "rand")
+    for L in [1, 32, 65]:
+        cases.append(Case("hkdfe %s %s %d" % (hexs(X), hexs(X), L), "expand prk==info", True, spec="spec.hkdfe %s %s %d" % (hexs(X), hexs(X), L)))
     Ls = [0, 1, 31, 32, 33, 63, 64, 65, 66, 95, 96, 97, 128, 160, 255, 256, 1000] + ([8159, 8160] if tier == "quick" else [4096, 8128, 8129, 8159, 8160])
     infos = [0, 1, 22, 23, 24, 55, 56, 64]
     for L in Ls:
